@@ -131,8 +131,11 @@ HeaderOK(s, e) ==
   \/ (h.ok = 1 /\ h.est = tr.est /\ h.n = s.n /\ h.m = tr.m /\ h.k = tr.k /\ h.rate4 = tr.rate4 /\ h.data = HexRef(s))
 
 ReaderOK(e) ==
-  LET tr == T IN
-  IF tr.kind = "bloom" THEN \A i \in 1..Len(tr.keys) : (IF ReadBloom(e.bytes, tr.keys[i], tr.m, tr.k) THEN 1 ELSE 0) = e.ans[i]
+  LET tr == T
+      want == IF tr.kind = "bloom" THEN ((tr.m + 7) \div 8) + 20 ELSE IF tr.kind = "cbloom" THEN 4 * tr.m + 20 ELSE 4 * tr.w * tr.k + 16 IN
+  IF tr.kind \in {"bloom", "cbloom", "cms"} /\ (Len(e.bytes) # want \/ \E i \in 1..Len(e.bytes) : e.bytes[i] \notin 0..255 \/ Len(e.ans) # Len(tr.keys))
+  THEN FALSE                  \* total: a file of another size cannot be read by the reference reader at all (and is not indexed)
+  ELSE IF tr.kind = "bloom" THEN \A i \in 1..Len(tr.keys) : (IF ReadBloom(e.bytes, tr.keys[i], tr.m, tr.k) THEN 1 ELSE 0) = e.ans[i]
   ELSE IF tr.kind = "cbloom" THEN \A i \in 1..Len(tr.keys) : ReadCounting(e.bytes, tr.keys[i], tr.m, tr.k) = e.ans[i]
   ELSE IF tr.kind = "cms" THEN \A i \in 1..Len(tr.keys) : LET r == ReadCMS(e.bytes, tr.keys[i], tr.w, tr.k, tr.mode) IN
                                                                 r = NotComparable \/ r = e.ans[i]
